@@ -19,13 +19,13 @@ EmitBehaviour ==
          THEN CSVWrite("%1$s", <<ToJson([helper |-> TRUE, steps |-> hist'])>>, IOEnv.QXV_GEN)
          ELSE IF q'.a = "Decode"
          THEN CSVWrite("%1$s", <<ToJson([helper |-> FALSE,
-                                         sub |-> [i \in 1..Len(Msg(c').a) |-> Msg(c').a[i].n],
-                                         v |-> c'.v, klen |-> c'.klen, fp |-> c'.fp,
-                                         m |-> JMsg(Msg(c')), mi |-> w'.mi, fpo |-> w'.fp, n |-> Len(w'.c),
+                                         sub |-> [i \in 1..Len(MsgSet(c').a) |-> MsgSet(c').a[i].n],
+                                         v |-> c'.v, klen |-> c'.klen, fp |-> c'.fp, ac |-> c'.ac, pc |-> c'.pc,
+                                         m |-> JMsg(Msg(c')), mset |-> JMsg(MsgSet(c')), scoped |-> Scoped(c'), mi |-> w'.mi, fpo |-> w'.fp, n |-> Len(w'.c),
                                          steps |-> hist'])>>, IOEnv.QXV_GEN)
          \* the buffer life-cycle steps continue a Decode history of the same case: the message is not repeated
          ELSE CSVWrite("%1$s", <<ToJson([helper |-> FALSE,
-                                         sub |-> [i \in 1..Len(Msg(c').a) |-> Msg(c').a[i].n],
-                                         v |-> c'.v, klen |-> c'.klen, fp |-> c'.fp,
+                                         sub |-> [i \in 1..Len(MsgSet(c').a) |-> MsgSet(c').a[i].n],
+                                         v |-> c'.v, klen |-> c'.klen, fp |-> c'.fp, ac |-> c'.ac, pc |-> c'.pc,
                                          steps |-> hist'])>>, IOEnv.QXV_GEN)
 =============================================================================
